@@ -11,22 +11,25 @@ type c05Panic struct {
 	val any
 }
 
-//verif:entry property=C05 tier=both bounds="n<=N handlers, each plain or context-aware with arbitrary Once/Async/Sequential flags and a panics flag with symbolic panic value; two publishes (of the event type itself or as interface values), then Wait; panic handler present or nil" cover="some-panic,no-panic" N_quick=2 N_thorough=3
+//verif:entry property=C05 tier=both bounds="n<=N handlers, each plain or context-aware with arbitrary Once/Async/Sequential flags and a panics flag with symbolic panic value; two publishes (of the event type itself or as interface values), then Wait; panic handler present or nil; observability layer present or not" cover="some-panic,no-panic" N_quick=2 N_thorough=3
 func harnessC05Panics() {
 	N := vParam("N", 2)
 	c01Log, c01Re = nil, nil
 	var panics []c05Panic
 	withPH := vBool()
+	var bopts []Option
+	if vBool() {
+		bopts = append(bopts, WithObservability(&c20Obs{})) // recovery must not depend on the observability layer
+	}
 	var bus *EventBus
 	if withPH {
-		bus = New(WithPanicHandler(func(ev any, ht reflect.Type, val any) {
+		bopts = append(bopts, WithPanicHandler(func(ev any, ht reflect.Type, val any) {
 			c01Mu.Lock()
 			panics = append(panics, c05Panic{ev, ht, val})
 			c01Mu.Unlock()
 		}))
-	} else {
-		bus = New()
 	}
+	bus = New(bopts...)
 	n := vInt(1, N)
 	type hd struct {
 		once, async, seq, ctxAware, panics bool
@@ -193,4 +196,51 @@ func harnessC05PanicNested() {
 	Publish(bus, evA{N: 5})
 	vAssert(got(1, 5) == 0, "log-was-taken")
 	vCover("nested-done")
+}
+
+//verif:entry property=C05 tier=both bounds="a handler (sync/async, plain/context-aware) that cancels the context of the publish it runs under and then panics, with an ordinary handler behind it; observability present or not; then a second publish with a fresh context" cover="panicked-after-cancel"
+func harnessC05PanicAfterCancel() {
+	reports := 0
+	opts := []Option{WithPanicHandler(func(ev any, ht reflect.Type, val any) {
+		c01Mu.Lock()
+		reports++
+		c01Mu.Unlock()
+	})}
+	if vBool() {
+		opts = append(opts, WithObservability(&c20Obs{}))
+	}
+	bus := New(opts...)
+	var cancelCur context.CancelFunc
+	cancels := vBool()
+	body := func() {
+		if cancels && cancelCur != nil {
+			cancelCur()
+		}
+		panic("gave up")
+	}
+	var so []SubscribeOption
+	if vBool() {
+		so = append(so, Async())
+	}
+	if vBool() {
+		SubscribeContext(bus, func(ctx context.Context, e evA) { body() }, so...)
+	} else {
+		Subscribe(bus, func(e evA) { body() }, so...)
+	}
+	later := 0
+	Subscribe(bus, func(e evA) { later++ })
+	for p := 1; p <= 2; p++ {
+		ctx, cancel := context.WithCancel(context.Background())
+		cancelCur = cancel
+		PublishContext(bus, ctx, evA{N: p})
+		bus.Wait()
+		cancel()
+		c01Mu.Lock()
+		vAssert(reports == p, "panic-handler-once-per-panic")
+		c01Mu.Unlock()
+	}
+	if !cancels {
+		vAssert(later == 2, "every-handler-still-runs")
+	}
+	vCover("panicked-after-cancel")
 }
